@@ -558,6 +558,7 @@ func (r *Run) spawn(name string, fn func(), daemon bool) *Task {
 		name = "g"
 	}
 	t := &Task{ID: id, Name: fmt.Sprintf("%s#%d", name, id), run: r, wake: make(chan struct{}, 1), Daemon: daemon}
+	raceReleaseMerge(unsafe.Pointer(&r.endAddr))
 	go func() {
 		raceDisable()
 		t.goid = goid()
@@ -597,6 +598,10 @@ func stackTrace() []byte {
 // park hands control to the scheduler and waits to be released.
 func (t *Task) park(m parkMsg) {
 	r := t.run
+	// Everything this task did so far happens-before whatever the harness
+	// reads after AcquireEnd (tasks never acquire endAddr, so this creates no
+	// edges between tasks).
+	raceReleaseMerge(unsafe.Pointer(&r.endAddr))
 	raceDisable()
 	r.parkCh <- m
 	<-t.wake
@@ -736,6 +741,10 @@ func (r *Run) drain() {
 	// Park messages arrive in a physically nondeterministic order (woken
 	// goroutines overlap for a few instructions); handle them in task-id
 	// order so that nothing observable depends on arrival order.
+	// The scheduler (and the harness code that runs on its goroutine) may read
+	// whatever tasks wrote before parking; tasks never acquire endAddr, so
+	// this creates no happens-before edges between tasks.
+	raceAcquire(unsafe.Pointer(&r.endAddr))
 	var ms []parkMsg
 	for {
 		select {
